@@ -49,6 +49,8 @@ func init() {
 			"\t} else if n > 125 {", "\t} else if n > 126 {", "C07-R3"},
 		mutant{"64-bit length read from the wrong offset", "codec/websocket/frame.go",
 			"return int(binary.BigEndian.Uint64(f[frameHeaderLength : frameHeaderLength+8]))", "return int(binary.BigEndian.Uint64(f[frameHeaderLength+2 : frameHeaderLength+10]))", "C07-R3"},
+		mutant{"top bit of the 64-bit length masked off", "codec/websocket/frame.go",
+			"return int(binary.BigEndian.Uint64(f[frameHeaderLength : frameHeaderLength+8]))", "return int(binary.BigEndian.Uint64(f[frameHeaderLength:frameHeaderLength+8]) & (1<<63 - 1))", "C07-R3"},
 		mutant{"extended length bytes disagree", "codec/websocket/frame.go",
 			"\t} else if v == 126 {\n\t\treturn 2\n\t}\n\treturn 0", "\t} else if v == 126 {\n\t\treturn 4\n\t}\n\treturn 0", "C07-R3"},
 	)
@@ -489,6 +491,19 @@ func checkLengthTables(c *Ctx, prop string) {
 				}
 			}
 			rows[code] = fmt.Sprintf("%s[%d:%d]", name, lo, hi)
+			// the value must reach the caller unmodified (only converted): masking or clamping here hides an oversized
+			// declared length from the limit check in the decoder
+			raw := false
+			for _, r := range returnsOf(payloadLen) {
+				for _, leaf := range phiLeaves(r.Results[0]) {
+					if stripConv(leaf) == ssa.Value(call) {
+						raw = true
+					}
+				}
+			}
+			if !raw {
+				rows[code] += " (modified before it is returned)"
+			}
 		})
 		want := map[int64]string{127: "Uint64[2:10]", 126: "Uint16[2:4]"}
 		good := len(rows) == len(want)
